@@ -128,7 +128,7 @@ ChooseScenario(np, n, el) ==
          is == InstancesOf(c) IN
      /\ cfg' = c /\ insts' = is
      /\ pairs' = IF OnlyBasePairs THEN {p \in (DOMAIN FileRules) \X is : <<p[1], p[2].str>> \in BasePairsOf(np, n)}
-                                  ELSE (DOMAIN FileRules) \X is
+                                  ELSE {p \in (DOMAIN FileRules) \X is : TRUE}   \* enumerated (TLC cannot spill a lazy product to disk)
   /\ layout' = n /\ eol' = el /\ phase' = "target"
   /\ UNCHANGED <<rule, tinst, cmt, prior, place, target>>
 
